@@ -166,6 +166,18 @@ def corr_objects_x(check, tier):
                                           'universe %d class %d soft=%s %s: %s -> %r' % (
                                               ui, cid, soft, what, etree.tostring(doc).decode()[:300], d)))
                         check.count(('xdec', soft, etree.tostring(doc)))
+                        if what == 'as written' and not soft:
+                            # direct oracle, independent reader: the document follows the (would-be) schema, every member
+                            # qualified by the namespace of the class that declares it, and denotes the value
+                            want = X.norm_value(desc, ('ref', cid), v)
+                            try:
+                                got = X.norm_value(desc, ('ref', cid), X.ref_decode(desc, classes, ('ref', cid), cls, doc, None))
+                                if not X.eq_value(got, want):
+                                    obj_fail(check, desc, cid, v, 'ref-decoder', 'get_object_as_xml wrote %s for %r; a schema-directed reader gets %r' % (
+                                        etree.tostring(doc).decode()[:300], want, got))
+                            except X.DecodeError as e:
+                                obj_fail(check, desc, cid, v, 'ref-decoder', 'get_object_as_xml wrote %s for %r, which does not follow the schema: %s' % (
+                                    etree.tostring(doc).decode()[:300], want, e))
                         if what == 'as written':          # direct oracle: the property itself on this document
                             want = X.norm_value(desc, ('ref', cid), v)
                             if not (d[0] == 'ok' and X.eq_value(d[1], want)):
@@ -709,6 +721,14 @@ def replay(check, path):
         else:
             tree = reparse(o[1])
             want = X.norm_value(desc, ('ref', cid), v)
+            try:
+                got = X.norm_value(desc, ('ref', cid), X.ref_decode(desc, classes, ('ref', cid), classes[cid], tree, None))
+                print('schema-directed reader: %r' % (got,))
+                if not X.eq_value(got, want):
+                    obj_fail(check, desc, cid, v, 'ref-decoder', 'a schema-directed reader gets %r from %s, sent %r' % (
+                        got, etree.tostring(tree).decode()[:300], want))
+            except X.DecodeError as e:
+                obj_fail(check, desc, cid, v, 'ref-decoder', '%s does not follow the schema: %s' % (etree.tostring(tree).decode()[:300], e))
             for soft in (False, True):
                 d = observe(XmlDocument(validator='soft' if soft else None).from_element, None, classes[cid], tree)
                 if d[0] == 'ok':
